@@ -6,6 +6,8 @@ import TdVerif.Lemmas.C10Memmap
 import TdVerif.Lemmas.C10Refresh
 import TdVerif.Lemmas.C10Tensor
 import TdVerif.Gen.Dtypes
+import TdVerif.Gen.C12Src
+import TdVerif.Model.C10Pins
 
 namespace TdVerif.Props.C10
 open TdVerif.C10
@@ -106,6 +108,39 @@ theorem write_through_load (fs : FS) (dir : Path) (b : List Nat) (d key dt : Str
     exact hk this.symm
   simp only at hm
   simp [load, loadEntries, writeLeaf, Slots.write, hne', hm, nodeMeta, metaEntry, hne]
+
+/-- … and at **any depth**: if `t'` is `t` with the bytes of one leaf replaced — said on the writer tasks: the tasks of `t'` are those
+    of `t` except that the cell of that leaf now carries the new bytes — then after the write through the mapping a load of the
+    directory returns `t'` (any nesting, lazy stacks, non-tensor entries; whatever else the file system holds) -/
+theorem write_through_load_any_depth (fs : FS) (dir : Path) (t t' : Tree) (p : Path) (key : String) (new : List Nat)
+    (hc : isColl t' = true) (hs : PathSafe t') (hw : WF t')
+    (he : Exactly fs dir (tasksTree dir t))
+    (hrel : ∀ x ∈ tasksTree dir t', x = (dir ++ p ++ [key ++ ".memmap"], File.bytes new)
+      ∨ (x ∈ tasksTree dir t ∧ x.1 ≠ dir ++ p ++ [key ++ ".memmap"])) :
+    load (depth t') (writeLeaf fs (dir ++ p) key new) dir = some t' := by
+  apply load_ok (depth t') t' dir _ hc hs hw (Nat.le_refl _)
+  intro x hx
+  rcases hrel x hx with h | ⟨hm, hne⟩
+  · subst h
+    simp [writeLeaf, Slots.write]
+  · have := he x hm
+    simp only [writeLeaf, Slots.write, List.append_assoc] at hne ⊢
+    simp [hne, this]
+
+/-- an instance two levels down: `{"a": …, "n": {"m": {"z": old}}}` saved, `td["n", "m", "z"]` written through the mapping -/
+example (fs : FS) (old new : List Nat)
+    (he : Exactly fs [] (tasksTree [] (.node [2] "cpu" [("a", .leaf "torch.uint8" [2] [1, 2]),
+      ("n", .node [2] "cpu" [("m", .node [2] "cpu" [("z", .leaf "torch.uint8" [2] old)])])]))) :
+    let t' := Tree.node [2] "cpu" [("a", .leaf "torch.uint8" [2] [1, 2]),
+      ("n", .node [2] "cpu" [("m", .node [2] "cpu" [("z", .leaf "torch.uint8" [2] new)])])]
+    load (depth t') (writeLeaf fs ([] ++ ["n", "m"]) "z" new) [] = some t' := by
+  intro t'
+  apply write_through_load_any_depth fs [] _ t' ["n", "m"] "z" new rfl (by simp [t', PathSafe, PathSafeKids, entryName]) (by simp [t', WF, WFKids, numel]) he
+  intro x hx
+  obtain ⟨xp, xf⟩ := x
+  simp [t', tasksTree, tasksKids, numel, nodeMeta, metaEntry] at hx
+  rcases hx with ⟨rfl, rfl⟩ | ⟨rfl, rfl⟩ | ⟨rfl, rfl⟩ | ⟨rfl, rfl⟩ | ⟨rfl, rfl⟩ <;>
+    simp [tasksTree, tasksKids, numel, nodeMeta, metaEntry]
 
 /-- `memmap_like` creates the same files as `memmap` (same paths) and a structure with the same
     keys, nesting, kinds, batch sizes, dtypes, shapes and payloads, with zero content -/
@@ -266,5 +301,10 @@ example :
 /-- the excluded point: key "a.memmap" as a node beside a leaf "a" -/
 example : ¬ PathSafe (.node [] "None" [("a", .leaf "torch.uint8" [] [1]), ("a.memmap", .node [] "None" [])]) := by
   simp [PathSafe, entryName]
+
+/-- the functions the C10 models transcribe are, in the working tree, the ones they were transcribed from (AST hashes,
+    docstrings removed; regenerated by harness/c12_pins.py on every run): an edit of a transcribed function breaks this
+    obligation even when no sampled input behaves differently -/
+theorem transcribed_sources_unchanged : Gen.c10Sources = TdVerif.C10.c10Pinned := by decide
 
 end TdVerif.Props.C10
